@@ -115,3 +115,9 @@ int verif_os_gettimeofday(struct timeval *tv, void *tz) {
 time_t verif_os_time(time_t *t) { time_t v = (time_t)(sim_os_now_ns() / 1000000000ULL); if (t) *t = v; return v; }
 clock_t verif_os_clock(void) { return (clock_t)(sim_os_now_ns() / 1000ULL); }
 pid_t verif_os_getpid(void) { return (pid_t)sim_os_getpid(); }
+
+/* ---- _FORTIFY_SOURCE spellings of the same OS calls */
+ssize_t verif_os_read_chk(int fd, void *buf, size_t n, size_t buflen) { (void)buflen; return verif_os_read(fd, buf, n); }
+int verif_os_open_2(const char *path, int flags) { (void)flags; return sim_os_open(path); }
+ssize_t verif_os_getrandom_chk(void *buf, size_t len, unsigned flags, size_t buflen) { (void)buflen; return verif_os_getrandom(buf, len, flags); }
+int verif_os_getentropy_chk(void *buf, size_t len, size_t buflen) { (void)buflen; return verif_os_getentropy(buf, len); }
